@@ -22,7 +22,9 @@ Start == /\ nid < MaxCalls /\ Cardinality(DOMAIN calls) < MaxActive /\ nid' = ni
 Step == /\ UNCHANGED nid
         /\ \/ \E b \in Blocks : Preload(b)
            \/ \E id \in DOMAIN calls :
-                \/ \E c \in Cids : BsGet(id, c) \/ BsDelete(id, c)
+                \* (duplicate keys = repeated lookups of one CID are left to the generated scenarios:
+                \*  here each key is looked up once, which keeps `ready` bounded)
+                \/ \E c \in Cids : (c \notin calls[id].seen /\ BsGet(id, c)) \/ BsDelete(id, c)
                 \/ \E S \in SUBSET calls[id].args : S # {} /\ AddPut(id, S)
                 \/ ExAsk(id, calls[id].miss)
                 \/ \E b \in Blocks : calls[id].ndl < MaxDl /\ ExDeliver(id, b)
